@@ -88,7 +88,7 @@ func runAndCheck(t *testing.T, pd *PropDef, sc *Scenario, tape []int32) (*RunRes
 	}
 	tr := BuildTruth(sc, res.Log)
 	var own, cross []Violation
-	if res.Out.StepLimit {
+	if res.Out.StepLimit && !pd.JudgeCutOff {
 		// the run was cut off by the step budget: nothing is judged (counted in evidence)
 		return res, tr, nil, nil
 	}
